@@ -256,6 +256,11 @@ type Expect struct {
 	Rows    [][]Cell
 	NCand   int // candidate rows before filtering
 	NFilt   int // decisions taken
+	// independent of Outcome: the candidate rows that are accepted on their own
+	// (all their filters evaluate, and aggregate to true), in chain order;
+	// Undecided: some row lies outside the reading, Accepted is not complete
+	Accepted  [][]Cell
+	Undecided bool
 }
 
 func (d Decl) Mode() string {
@@ -330,23 +335,26 @@ func Expected(c *GCase, blocks []Block) Expect {
 	and := strings.ToLower(d.Agg) == "and"
 	emit := func(inputs []exVal, it item, abi int, dataBranch bool) {
 		ex.NCand++
+		// the verdict on THIS candidate row, independent of every other row:
+		// st = "" (decided), "err" (a filter cannot be evaluated), "any" (outside the reading)
 		var results []bool
+		st, why := "", ""
 		note := func(f Flt, v exVal) {
-			if ex.Outcome != "ok" {
+			if st != "" {
 				return
 			}
 			if v.Kind == "any" {
 				if f.Active() {
-					ex.Outcome, ex.Why = "any", "filter on an empty array's column"
+					st, why = "any", "filter on an empty array's column"
 				}
 				return
 			}
 			r, ok, err := decide(f, v, c.DB)
 			switch {
 			case err != nil:
-				ex.Outcome, ex.Why = "err", err.Error()
+				st, why = "err", err.Error()
 			case !ok:
-				ex.Outcome, ex.Why = "any", "operator outside the reading: "+f.Op+" on "+v.Kind
+				st, why = "any", "operator outside the reading: "+f.Op+" on "+v.Kind
 			case r != nil:
 				results = append(results, *r)
 				ex.NFilt++
@@ -380,7 +388,22 @@ func Expected(c *GCase, blocks []Block) Expect {
 				}
 			}
 		}
-		if acc {
+		// rows the declaration ACCEPTS: evaluated without error, to true
+		switch {
+		case st == "any":
+			ex.Undecided = true
+		case st == "" && acc:
+			ex.Accepted = append(ex.Accepted, row)
+		}
+		// the outcome of indexing this chain: the first row that cannot be
+		// evaluated ends it (in program order)
+		if ex.Outcome != "ok" {
+			return
+		}
+		switch {
+		case st != "":
+			ex.Outcome, ex.Why = st, why
+		case acc:
 			ex.Rows = append(ex.Rows, row)
 		}
 	}
@@ -407,7 +430,9 @@ func Expected(c *GCase, blocks []Block) Expect {
 						continue
 					}
 					if l.BadABI {
-						ex.Outcome, ex.Why = "err", "undecodable data"
+						if ex.Outcome == "ok" {
+							ex.Outcome, ex.Why = "err", "undecodable data"
+						}
 						continue
 					}
 					cands, abi := logCandidates(d, l)
@@ -523,4 +548,27 @@ func firstDiff(ex Expect, want, got [][]Cell) string {
 		}
 	}
 	return ""
+}
+
+// LostByRestriction: the rows the declaration accepts on the whole chain that
+// it does not accept on the delivered chain (C12: the restrictions sent to the
+// node never exclude a log the declared filters would accept).  A row whose
+// evaluation raises an error is not an accepted row.
+func LostByRestriction(whole, delivered Expect) (lost []string, judged bool) {
+	if whole.Undecided || delivered.Undecided {
+		return nil, false
+	}
+	have := map[string]int{}
+	for _, r := range delivered.Accepted {
+		have[rowKey(r)]++
+	}
+	for _, r := range whole.Accepted {
+		k := rowKey(r)
+		if have[k] == 0 {
+			lost = append(lost, k)
+			continue
+		}
+		have[k]--
+	}
+	return lost, true
 }
